@@ -6,7 +6,13 @@ package c29
 // router and map datastores:
 //
 //   hist  - histories of Publish / Resolve over 2-3 Ed25519 keys with cache size {0,1,16},
-//           optional max-cache-TTL, explicit sequence numbers, TTLs and EOLs.
+//           optional max-cache-TTL, explicit sequence numbers, TTLs and EOLs, and restarts:
+//           the name system is dropped and a new one is built over the SAME router, either
+//           over the same (persistent) datastore or over a fresh empty one (what
+//           NewNameSystem does by default: an in-memory map datastore). After a restart with
+//           a fresh datastore the publisher's current record is the one routing serves
+//           (IPNSPublisher.GetPublished documents that fallback), so sequence selection
+//           must continue from it.
 //   chain - name chains A1 -> ... -> Ak -> /ipfs/c/sub (k <= 6, optional cycle) with per-hop
 //           TTLs and sub-paths, resolved from every start with depth limits and remainders.
 //
@@ -157,6 +163,8 @@ type sut struct {
 	ns     namesys.NameSystem
 	nsDS   ds.Datastore
 	router routing.Routing
+	cache  int
+	max    *int64
 }
 
 func newSUT(cache int, max *int64, shared bool) (*sut, error) {
@@ -169,18 +177,38 @@ func newSUT(cache int, max *int64, shared bool) (*sut, error) {
 		"ipns": ipns.Validator{},
 		"pk":   record.PublicKeyValidator{},
 	})
-	opts := []namesys.Option{namesys.WithDatastore(nds)}
-	if cache > 0 {
-		opts = append(opts, namesys.WithCache(cache))
-	}
-	if max != nil {
-		opts = append(opts, namesys.WithMaxCacheTTL(time.Duration(*max)))
-	}
-	ns, err := namesys.NewNameSystem(router, opts...)
-	if err != nil {
+	s := &sut{nsDS: nds, router: router, cache: cache, max: max}
+	if err := s.build(); err != nil {
 		return nil, err
 	}
-	return &sut{ns: ns, nsDS: nds, router: router}, nil
+	return s, nil
+}
+
+// build constructs a name system over s.router and s.nsDS with the case's options.
+func (s *sut) build() error {
+	opts := []namesys.Option{namesys.WithDatastore(s.nsDS)}
+	if s.cache > 0 {
+		opts = append(opts, namesys.WithCache(s.cache))
+	}
+	if s.max != nil {
+		opts = append(opts, namesys.WithMaxCacheTTL(time.Duration(*s.max)))
+	}
+	ns, err := namesys.NewNameSystem(s.router, opts...)
+	if err != nil {
+		return err
+	}
+	s.ns = ns
+	return nil
+}
+
+// restart drops the name system and builds a new one with the same options over the same
+// router: over the same datastore (a node restart with a persistent datastore) or, with
+// fresh, over a new empty map datastore (what NewNameSystem uses when none is supplied).
+func (s *sut) restart(fresh bool) error {
+	if fresh {
+		s.nsDS = dssync.MutexWrap(ds.NewMapDatastore())
+	}
+	return s.build()
 }
 
 type recView struct {
@@ -247,7 +275,7 @@ func ttlOK(got, want time.Duration, start time.Time) bool {
 // sub-check "hist"
 
 type Op struct {
-	Kind string `json:"kind"` // pub | res
+	Kind string `json:"kind"` // pub | res | restart
 	Key  int    `json:"key"`
 	// pub
 	Val    int    `json:"val,omitempty"`
@@ -260,6 +288,8 @@ type Op struct {
 	Rem   string `json:"rem,omitempty"`
 	Form  string `json:"form,omitempty"`  // b36 | b58 | b32
 	Depth int    `json:"depth,omitempty"` // 0 = option not passed
+	// restart
+	Fresh bool `json:"fresh,omitempty"` // new empty namesys datastore (else the same one)
 }
 
 type HistCase struct {
@@ -291,7 +321,14 @@ func genHist(t *rapid.T) HistCase {
 	m := make([]st, nk)
 	for i := 0; i < n; i++ {
 		k := rapid.IntRange(0, nk-1).Draw(t, "key")
-		if rapid.IntRange(0, 9).Draw(t, "kind") < 5 {
+		kind := rapid.IntRange(0, 10).Draw(t, "kind")
+		if kind == 10 {
+			// restart; the model is unchanged: the current record is still the routed one
+			c.Ops = append(c.Ops, Op{Kind: "restart", TTL: -1,
+				Fresh: rapid.IntRange(0, 3).Draw(t, "fresh") > 0})
+			continue
+		}
+		if kind < 5 {
 			op := Op{Kind: "pub", Key: k}
 			op.Val = rapid.IntRange(0, 2).Draw(t, "val")
 			if rapid.IntRange(0, 3).Draw(t, "hassub") == 0 {
@@ -378,8 +415,8 @@ func runHist(c HistCase) kit.Result {
 	repubAfterResolve := make([]bool, len(keys))
 
 	var known error
-	nt := false
-	var nPub, nRes, nRej, nOld, nHitCand int
+	nt, ntRouted := false, false
+	var nPub, nRes, nRej, nOld, nHitCand, nRestart, nFromRouting int
 
 	for i, op := range c.Ops {
 		if op.Key < 0 || op.Key >= len(keys) {
@@ -411,6 +448,18 @@ func runHist(c HistCase) kit.Result {
 			if err != nil {
 				return kit.Fail("op %d: reading routed record: %v", i, err)
 			}
+			// cur is the publisher's current record: its own stored one or, when it has none
+			// (new name system over a fresh datastore), the one routing serves.
+			cur, curSrc := before, "stored"
+			if !before.has {
+				cur, curSrc = rtBefore, "routed"
+				if cur.has {
+					nFromRouting++
+					if cur.seq > 0 {
+						ntRouted = true
+					}
+				}
+			}
 			perr := s.ns.Publish(ctx, k.sk, v, opts...)
 			after, err := s.localRecord(ctx, k.name)
 			if err != nil {
@@ -427,18 +476,21 @@ func runHist(c HistCase) kit.Result {
 			if rtBefore.has && (!rtAfter.has || rtAfter.seq < rtBefore.seq) {
 				return kit.Fail("op %d: routed sequence went from %d to %d on Publish (err=%v)", i, rtBefore.seq, rtAfter.seq, perr)
 			}
+			if cur.has && after.has && after.seq < cur.seq {
+				return kit.Fail("op %d: Publish stored sequence %d below the current (%s) record's %d (err=%v)", i, after.seq, curSrc, cur.seq, perr)
+			}
 			// explicit sequence not greater than the current one: rejected, nothing stored
-			invalid := op.HasSeq && before.has && op.Seq <= before.seq
-			firstZero := op.HasSeq && !before.has && op.Seq == 0 // no current record: either outcome is consistent with the statement
+			invalid := op.HasSeq && cur.has && op.Seq <= cur.seq
+			firstZero := op.HasSeq && !cur.has && op.Seq == 0 // no current record: either outcome is consistent with the statement
 			if invalid || (firstZero && perr != nil) {
 				if !errors.Is(perr, namesys.ErrInvalidSequence) {
-					return kit.Fail("op %d: explicit sequence %d with current %d (has=%v): want ErrInvalidSequence, got %v", i, op.Seq, before.seq, before.has, perr)
+					return kit.Fail("op %d: explicit sequence %d with current (%s) %d (has=%v): want ErrInvalidSequence, got %v", i, op.Seq, curSrc, cur.seq, cur.has, perr)
 				}
 				if after.raw != before.raw || after.has != before.has {
-					return kit.Fail("op %d: rejected Publish (seq %d <= %d) changed the stored record", i, op.Seq, before.seq)
+					return kit.Fail("op %d: rejected Publish (seq %d <= %d) changed the stored record", i, op.Seq, cur.seq)
 				}
 				if rtAfter.raw != rtBefore.raw {
-					return kit.Fail("op %d: rejected Publish (seq %d <= %d) changed the routed record", i, op.Seq, before.seq)
+					return kit.Fail("op %d: rejected Publish (seq %d <= %d) changed the routed record", i, op.Seq, cur.seq)
 				}
 				nRej++
 				continue
@@ -451,7 +503,7 @@ func runHist(c HistCase) kit.Result {
 				return kit.Fail("op %d: valid Publish failed: %v", i, perr)
 			}
 			if perr != nil && after.raw == before.raw && errors.Is(perr, namesys.ErrInvalidSequence) {
-				return kit.Fail("op %d: explicit sequence %d greater than current %d (has=%v) rejected", i, op.Seq, before.seq, before.has)
+				return kit.Fail("op %d: explicit sequence %d greater than current (%s) %d (has=%v) rejected", i, op.Seq, curSrc, cur.seq, cur.has)
 			}
 			if after.raw != before.raw {
 				if after.value != vstr {
@@ -462,9 +514,9 @@ func runHist(c HistCase) kit.Result {
 					if after.seq != op.Seq {
 						return kit.Fail("op %d: explicit sequence %d stored as %d", i, op.Seq, after.seq)
 					}
-				case before.has && before.value != vstr:
-					if after.seq <= before.seq {
-						return kit.Fail("op %d: value changed (%q -> %q) but sequence stayed %d -> %d", i, before.value, vstr, before.seq, after.seq)
+				case cur.has && cur.value != vstr:
+					if after.seq <= cur.seq {
+						return kit.Fail("op %d: value changed (%q -> %q, current record: %s) but sequence stayed %d -> %d", i, cur.value, vstr, curSrc, cur.seq, after.seq)
 					}
 				}
 			}
@@ -561,6 +613,29 @@ func runHist(c HistCase) kit.Result {
 				continue
 			}
 			return kit.Result{Err: errors.New(msg)}
+		case "restart":
+			nRestart++
+			if err := s.restart(op.Fresh); err != nil {
+				return kit.Fail("op %d: NewNameSystem on restart: %v", i, err)
+			}
+			for j := range keys {
+				if op.Fresh {
+					local[j] = recView{}
+				} else {
+					// same datastore: the publisher's records must still be there
+					lr, err := s.localRecord(ctx, keys[j].name)
+					if err != nil {
+						return kit.Fail("op %d: stored record unreadable after restart: %v", i, err)
+					}
+					if lr.raw != local[j].raw || lr.has != local[j].has {
+						return kit.Fail("malformed harness state: datastore changed across restart")
+					}
+				}
+				// the new name system starts with an empty resolver cache
+				resolvedOK[j] = false
+				repubAfterResolve[j] = false
+			}
+			seen = map[string]routed{}
 		default:
 			return kit.Fail("malformed case: op kind %q", op.Kind)
 		}
@@ -584,12 +659,21 @@ func runHist(c HistCase) kit.Result {
 	if nPub > 0 && nRes > 0 {
 		cls = append(cls, "pub+res")
 	}
-	return kit.Result{NonTrivial: nt, Classes: cls}
+	if nRestart > 0 {
+		cls = append(cls, "restart")
+	}
+	if nFromRouting > 0 {
+		cls = append(cls, "publish-over-routed-only-record")
+	}
+	if ntRouted {
+		cls = append(cls, "routed-only-seq>0")
+	}
+	return kit.Result{NonTrivial: nt || ntRouted, Classes: cls}
 }
 
 var histSpec = kit.Spec[HistCase]{
 	Prop: "C29", Name: "hist",
-	Rule: "history of <=20 Publish/Resolve ops over 2-3 seeded Ed25519 keys on namesys(offline router, map datastore), cache size {0,1,16}, optional max-cache-TTL, explicit sequences (below/equal/above current), TTLs incl. 0, EOLs >= 1h, resolves through the k51/12D3/bafz name forms with remainders; non-trivial = a name that was resolved is republished with a different value (or explicit sequence) and then resolved again",
+	Rule:  "history of <=20 Publish/Resolve ops over 2-3 seeded Ed25519 keys on namesys(offline router, map datastore), cache size {0,1,16}, optional max-cache-TTL, explicit sequences (below/equal/above current), TTLs incl. 0, EOLs >= 1h, resolves through the k51/12D3/bafz name forms with remainders, restarts (new name system over the same router, same or fresh empty datastore); non-trivial = a name that was resolved is republished with a different value (or explicit sequence) and then resolved again, or a Publish whose current record (sequence > 0) exists only in routing (after a fresh-datastore restart)",
 	Quick: 1200, Thorough: 8000,
 	Gen: genHist, Run: runHist,
 }
@@ -789,7 +873,7 @@ func runChain(c ChainCase) kit.Result {
 
 var chainSpec = kit.Spec[ChainCase]{
 	Prop: "C29", Name: "chain",
-	Rule: "chain of k<=6 seeded Ed25519 names A1->...->Ak->/ipfs/c (or back into the chain: cycle), per-hop TTL (incl. 0, default) and sub-path, published through namesys in either order, then 1-6 resolves from any start with depth limit 1..8/default/unlimited, remainder and name form, cache size {0,1,16}, optional max-cache-TTL; non-trivial = chain length >= 3",
+	Rule:  "chain of k<=6 seeded Ed25519 names A1->...->Ak->/ipfs/c (or back into the chain: cycle), per-hop TTL (incl. 0, default) and sub-path, published through namesys in either order, then 1-6 resolves from any start with depth limit 1..8/default/unlimited, remainder and name form, cache size {0,1,16}, optional max-cache-TTL; non-trivial = chain length >= 3",
 	Quick: 800, Thorough: 5000,
 	Gen: genChain, Run: runChain,
 }
